@@ -352,6 +352,21 @@ pub fn other_builders() -> Vec<(&'static str, SerBuilder)> {
     v.push(("dist-l2", |_| ser!("dist-l2", L2Dist, eq, dist_behaviour::<L2Dist>)));
     v.push(("dist-linf", |_| ser!("dist-linf", LInfDist, eq, dist_behaviour::<LInfDist>)));
     v.push(("dist-lp", |_| ser!("dist-lp", LpDist(2.5f64), eq, dist_behaviour::<LpDist<f64>>)));
+    // every exponent the (public tuple) constructor accepts and the parameter checks let through
+    v.push(("dist-lp-variants", |seed| {
+        let e = [0.5f64, 1.0, 2.0, 3.0, 0.25, 50.0, 1e-3, -1.0][(seed % 8) as usize];
+        ser!("dist-lp-variants", LpDist(e), eq, dist_behaviour::<LpDist<f64>>)
+    }));
+    v.push(("kmeans-model-lp-variants", |seed| {
+        let e = [0.5f64, 1.0, 2.0, 0.25][(seed % 4) as usize];
+        let d = make_data(3, 60, 2, false);
+        let m = linfa_clustering::KMeans::params_with(2, rand_xoshiro::Xoshiro256Plus::seed_from_u64(5), LpDist(e)).max_n_iterations(5).fit(&DatasetBase::from(d.x.clone())).map_err(es)?;
+        ser!("kmeans-model-lp-variants", m, eq, |m: &linfa_clustering::KMeans<f64, LpDist<f64>>| {
+            let q = make_data(9, 12, 2, false).x;
+            let l: Array1<usize> = m.predict(&q);
+            Ok(vec![("centroids".into(), arr2(m.centroids())), ("predict".into(), format!("{:?}", l.to_vec()))])
+        })
+    }));
 
     // ---- clustering parameters and results
     v.push(("dbscan-valid-params", |_| {
@@ -514,6 +529,54 @@ pub fn other_builders() -> Vec<(&'static str, SerBuilder)> {
             let m = p.fit_with(None, &Dataset::new(d.x.clone(), d.ybin.clone())).map_err(es)?;
             out.push(("refit-weights".into(), arr1(&m.get_weights())));
             Ok(out)
+        })
+    }));
+    // fitted elastic nets whose variance estimate succeeded / failed for two different reasons:
+    // the statistics derived from it (or the error they report) belong to the model's behaviour
+    v.push(("elasticnet-model-statistics", |seed| {
+        let d = make_data(5, 40, 3, false);
+        let mut x = d.x.clone();
+        let (x, y) = match seed % 3 {
+            0 => (x, d.yreg.clone()),
+            1 => {
+                x.column_mut(1).fill(0.0); // singular design: the estimate is ill conditioned
+                (x, d.yreg.clone())
+            }
+            _ => (x.slice(ndarray::s![..3, ..]).to_owned(), d.yreg.slice(ndarray::s![..3]).to_owned()), // too few samples
+        };
+        let m = linfa_elasticnet::ElasticNet::<f64>::params().penalty(0.05).l1_ratio(0.5).fit(&Dataset::new(x, y)).map_err(es)?;
+        ser!("elasticnet-model-statistics", m, noeq, |m: &linfa_elasticnet::ElasticNet<f64>| {
+            Ok(vec![
+                ("hyperplane".into(), arr1(&m.hyperplane().to_owned())),
+                ("intercept".into(), fb(m.intercept())),
+                ("z_score".into(), match m.z_score() { Ok(z) => arr1(&z), Err(e) => format!("err: {e}") }),
+                ("confidence_95th".into(), match m.confidence_95th() { Ok(c) => c.iter().map(|(a, b)| format!("{}:{}", fb(*a), fb(*b))).collect::<Vec<_>>().join(","), Err(e) => format!("err: {e}") }),
+            ])
+        })
+    }));
+    v.push(("multitask-elasticnet-model-statistics", |seed| {
+        let d = make_data(5, 40, 3, false);
+        let mut x = d.x.clone();
+        let (x, y) = match seed % 3 {
+            0 => (x, d.yreg2.clone()),
+            1 => {
+                x.column_mut(0).fill(0.0);
+                (x, d.yreg2.clone())
+            }
+            _ => (x.slice(ndarray::s![..3, ..]).to_owned(), d.yreg2.slice(ndarray::s![..3, ..]).to_owned()),
+        };
+        let m = linfa_elasticnet::MultiTaskElasticNet::<f64>::params().penalty(0.05).l1_ratio(0.5).fit(&Dataset::new(x, y)).map_err(es)?;
+        ser!("multitask-elasticnet-model-statistics", m, noeq, |m: &linfa_elasticnet::MultiTaskElasticNet<f64>| {
+            Ok(vec![
+                ("hyperplane".into(), arr2(&m.hyperplane().to_owned())),
+                ("intercept".into(), arr1(&m.intercept().to_owned())),
+                // z_score() / confidence_95th() of the multi-task model broadcast a length-p variance
+                // against the p x t hyperplane and panic whenever t != p - on the original and on the
+                // restored model alike, so it is not a round-trip matter and no property of this suite
+                // covers it (noted in DESIGN.md section 9); only the error case is comparable
+                ("statistics-error".into(), if m.hyperplane().nrows() == m.hyperplane().ncols() { "square: not probed".to_string() } else {
+                    match crate::fw::guarded(|| m.z_score().map(|_| ())) { Ok(Ok(())) => "ok".into(), Ok(Err(e)) => format!("err: {e}"), Err(_) => "panics (broadcast)".into() } }),
+            ])
         })
     }));
     v.push(("multitask-elasticnet-valid-params", |_| {
@@ -684,6 +747,27 @@ pub fn other_builders() -> Vec<(&'static str, SerBuilder)> {
             let mut f = m.features();
             f.sort_unstable();
             Ok(vec![("predict".into(), format!("{:?}", y.to_vec())), ("features(sorted)".into(), format!("{f:?}"))])
+        })
+    }));
+
+    // trees whose pruning merged subtrees (children predicting the same class collapse into a leaf that
+    // keeps the data of the split it once was): every node is walked and everything it publishes compared
+    v.push(("tree-pruned-nodes-variants", |seed| {
+        let d = make_data(40 + seed % 5, 120, 3, false);
+        // few classes, noisy labels, small depth / large leaf weight: plenty of merged subtrees
+        let y = d.ycls.mapv(|l| l % 2);
+        let base = linfa_trees::DecisionTree::params();
+        let p = match seed % 3 { 0 => base.max_depth(Some(2)), 1 => base.min_weight_leaf(12.0), _ => base.max_depth(Some(4)).min_weight_split(30.0) };
+        let m = p.fit(&Dataset::new(d.x.clone(), y)).map_err(es)?;
+        ser!("tree-pruned-nodes-variants", m, eq, |m: &linfa_trees::DecisionTree<f64, usize>| {
+            let nodes: Vec<String> = m.iter_nodes().map(|n| {
+                let (f, v, imp) = n.split();
+                format!("d{} leaf={} pred={:?} split=({f},{},{}) children={}", n.depth(), n.is_leaf(), n.prediction(), fb(v), fb(imp),
+                    n.children().iter().filter(|c| c.is_some()).count())
+            }).collect();
+            let y: Array1<usize> = m.predict(&zoo::probe(8, 12, 3, false));
+            Ok(vec![("nodes".into(), nodes.join(";")), ("predict".into(), format!("{:?}", y.to_vec())),
+                ("importance".into(), fbs(m.feature_importance().iter())), ("leaves".into(), m.num_leaves().to_string()), ("depth".into(), m.max_depth().to_string())])
         })
     }));
 
